@@ -40,6 +40,7 @@ THEOREMS = ['C11_inverse_den', 'C11_inverse_complcell_rejects',
             'C11_split_card', 'C11_card_geometry',
             'C11_get_ast_accepts_iff',
             'C11_handover_no_complement', 'C11_handover_loop',
+            'C11_deck_end_to_end',
             'C11_nested_refuted']
 TRUSTED = [
     'hand-written model coq/C11/Model.v: lexer + pushdown precedence parser '
